@@ -706,11 +706,11 @@ def run(repo: Repo, rep: Report) -> None:  # noqa: F811
         for m, c, chain in key_sites:
             if not chain:
                 # an expression (lambda not delegating to a function of the library) or a builtin: yields a value by construction
-                rep.ob("C08.o-sort-key-is-total", m, m.qual_of(c), "%s(key=<expression>)" % c.func.id, True, "the key is an expression, not a function with paths", node=c, vacuous=True)
+                rep.ob("C08.o-sort-key-is-total", m, m.qual_of(c), "%s(key=<expression>)" % H.sort_callee(m, c), True, "the key is an expression, not a function with paths", node=c, vacuous=True)
                 continue
             partial = [(km, kf) for km, kf, _s in chain if not H.always_returns_value(kf.body)]
             total = not partial
-            rep.ob("C08.o-sort-key-is-total", m, m.qual_of(c), "%s(key=%s)" % (c.func.id, chain[-1][1].name), total,
+            rep.ob("C08.o-sort-key-is-total", m, m.qual_of(c), "%s(key=%s)" % (H.sort_callee(m, c), chain[-1][1].name), total,
                    "returns a key on every path" if total else "%s.%s has a path that falls off the end (returns None) - taken for an argument that matches none of its tests, e.g. the "
                    "error object an ORDER BY expression evaluated to: None and a tuple are not comparable, sorted() raises TypeError" % (partial[0][0].rel, partial[0][1].name), node=c)
 
@@ -1160,7 +1160,7 @@ def run(repo: Repo, rep: Report) -> None:  # noqa: F811
             if isinstance(x, ast.Attribute) and norm(x.value) == qp and x.attr in ("orderby", "having"):
                 clause = x.attr
             elif isinstance(x, ast.Attribute) and x.attr == "expr" and isinstance(x.value, ast.Name) and any(
-                    isinstance(l.target, ast.Name) and l.target.id == x.value.id and norm(l.iter) == qp + ".projection" for l in enclosing(alg, c, (ast.For,), ta)):
+                    isinstance(l.target, ast.Name) and l.target.id == x.value.id and qp + ".projection" in H.iterated_sources(ta, l.iter, {qp, mp}) for l in enclosing(alg, c, (ast.For,), ta)):
                 clause = "projection"
             if clause is None:
                 raise AnalysisError("translateAggregates: _sample rewrite of %s not modelled" % norm(x))
